@@ -1,6 +1,7 @@
 import Emg3dVerif.Model.Num
 import Emg3dVerif.Drv.C05
 import Emg3dVerif.Drv.C02
+import Emg3dVerif.Drv.C03
 open Emg
 
 def handle (ws : List String) : String :=
@@ -10,6 +11,8 @@ def handle (ws : List String) : String :=
     let r : Option String :=
       if w == "mg" || w == "maxlevel" || w == "scdir" || w == "lrdir" || w == "coarsen" then Drv05.handle ws
       else if w == "amat" || w == "fit" || w == "eta" || w == "zeta" then Drv02.handle ws
+      else if w == "gs" || w == "smoothing" then Drv03.handle ws
+      else if w == "ldlt" then Drv03.handleLdlt ws
       else none
     r.getD "bad-op"
 
